@@ -349,8 +349,7 @@ class Path:
         owner, sort, ghost = self.hkey(ref.s.cls, attr)
         t = z3.Select(env.heap[(owner, attr)], ref.t)
         v = V(t, sort)
-        if not env.spec:
-            self.wf(v)
+        self.wf(v)      # every sequence / map stored in the heap is well formed (len >= 0): standing assumption
         return v
 
     def hwrite(self, ref, attr, val):
@@ -501,9 +500,9 @@ class Path:
         return whole, cells
 
     def _mod_loc(self, loc, env, whole, cells):
-        n = ast.parse(loc, mode="eval").body
-        if isinstance(n, ast.Subscript):        # Class.field[*]
-            n = n.value
+        star = loc.strip().endswith("[*]")
+        n = ast.parse(loc.strip()[:-3] if star else loc, mode="eval").body
+        if star:        # Class.field[*]
             if isinstance(n, ast.Attribute) and isinstance(n.value, ast.Name) and n.value.id in self.unit.classes:
                 d = self.eng.field_decl(n.value.id, n.attr)
                 if d is None:
@@ -832,9 +831,16 @@ class Path:
                         while isinstance(root, ast.Subscript):
                             root = root.value
                         if isinstance(root, ast.Name):
-                            names.add(root.id)
+                            v = self.env.locals.get(root.id)
+                            if v is None or isinstance(v.s, (SeqS, MapS)):
+                                names.add(root.id)
                         elif isinstance(root, ast.Attribute):
-                            fields.add(root)
+                            try:
+                                fv = self.ev(root, self.env.spec_view())
+                                if isinstance(fv.s, (SeqS, MapS)):
+                                    fields.add(root)
+                            except Exception:
+                                fields.add(root)
                 elif isinstance(n, ast.ExceptHandler) and n.name:
                     names.add(n.name)
         return names, fields, calls
@@ -883,6 +889,12 @@ class Path:
                 self.havoc_field(key)
         # heap: callees' modifies
         field_names_written = {f.attr for f in fields}
+        for c in calls:
+            for cfc in self.callees_of(c):
+                for loc in cfc.modifies_l:
+                    l2 = loc.strip()
+                    l2 = l2[:-3] if l2.endswith("[*]") else l2
+                    field_names_written.add(l2.rsplit(".", 1)[-1])
         for c in calls:
             fcs = self.callees_of(c)
             for cfc in fcs:
@@ -967,6 +979,8 @@ class Path:
         """callee frame location `self.a.b` / `p.a` where the receiver / argument is a stable expression of the caller:
         havoc exactly that cell.  Returns False when the location cannot be resolved (caller then havocs the field)."""
         try:
+            if loc.strip().endswith("[*]"):
+                return False
             n = ast.parse(loc, mode="eval").body
             if not isinstance(n, ast.Attribute):
                 return False
@@ -1016,9 +1030,8 @@ class Path:
             return False
 
     def havoc_modloc_coarse(self, loc, cfc):
-        n = ast.parse(loc, mode="eval").body
-        if isinstance(n, ast.Subscript):
-            n = n.value
+        loc = loc.strip()
+        n = ast.parse(loc[:-3] if loc.endswith("[*]") else loc, mode="eval").body
         if isinstance(n, ast.Attribute):
             # receiver class: the contract's own class for self.x, or a named class
             if isinstance(n.value, ast.Name) and n.value.id in self.unit.classes:
@@ -1552,20 +1565,29 @@ class Path:
         return cc is not None and cc.eq_structural
 
     def dataclass_eq(self, a, b, n):
-        """== between instances of a dataclass that links to its own type: unfolded one level
-        (DESIGN §2.3).  The comparison must be decided by identity or by a None/non-None link pair;
-        otherwise it depends on unboundedly deep structure: obligation structural-eq-bounded."""
+        """== between instances of a dataclass that links to its own type (DESIGN §2.3).  The generated __eq__ compares the
+        field tuples element by element, in field order.  Payload fields may compare equal (the outcome must not depend on
+        them), so every link field may be reached; a link pair is harmless when identical / both None (equal, go on) or when
+        exactly one is None (unequal, stop).  Two distinct non-None links mean recursion into the neighbours - unboundedly
+        deep (RecursionError on long lists, value-dependent result): obligation structural-eq-bounded."""
         cc = self.unit.classes[a.s.cls]
         links = [f for f in cc.dataclass_fields if isinstance(cc.fields[f], RefS)]
-        decided_unequal = []
+        same = a.t == b.t
+        decided = z3.BoolVal(False)       # "some link pair stops the comparison as unequal"
+        all_equal_so_far = z3.BoolVal(True)
+        bounded = z3.BoolVal(False)
         for f in links:
             x, y = self.hread(self.env, a, f), self.hread(self.env, b, f)
-            decided_unequal.append(z3.Xor(x.t == 0, y.t == 0))
-        same = a.t == b.t
-        self.oblige("%s/structural-eq-bounded@L%d" % (self.fc.qualname, getattr(n, "lineno", 0)),
-                    z3.Or(same, *decided_unequal), "structural-eq", getattr(n, "lineno", 0))
+            stop = z3.Xor(x.t == 0, y.t == 0)
+            bounded = z3.Or(bounded, z3.And(all_equal_so_far, stop))
+            decided = z3.Or(decided, z3.And(all_equal_so_far, stop))
+            all_equal_so_far = z3.And(all_equal_so_far, x.t == y.t)
+        line = getattr(n, "lineno", 0)
+        self.oblige("%s/structural-eq-bounded@L%d" % (self.fc.qualname, line), z3.Or(same, bounded, all_equal_so_far),
+                    "structural-eq", line)
         unk = fresh("deep_eq", BOOL)
-        return ite(same, z3.BoolVal(True), ite(z3.Or(*decided_unequal) if decided_unequal else z3.BoolVal(False), z3.BoolVal(False), unk))
+        # value: identical -> True; stopped at a None/non-None pair -> False; all links identical -> depends on payloads only (unknown)
+        return ite(same, z3.BoolVal(True), ite(decided, z3.BoolVal(False), unk))
 
     def ev_Subscript(self, n, env):
         base = self.ev(n.value, env)
@@ -1594,6 +1616,8 @@ class Path:
             if not env.spec:
                 self.wf(r)
             return r
+        if isinstance(base.s, ArrS):
+            return V(z3.Select(base.t, ops.coerce(idx, base.s.k).t), base.s.v)
         if isinstance(base.s, TupS):
             i = z3.simplify(idx.t)
             if not z3.is_int_value(i):
